@@ -351,3 +351,61 @@ Definition copy_sample_data (guard : bool) (file : list N) (zeof : bool) (m : md
       if 0 <? ms_pos st then Ok (ms_out st ++ firstn (N.to_nat (ms_pos st)) (ms_buf st))
       else Ok (ms_out st)
   end.
+
+(* ------------------------------------------------------------------ DecodeFile: the top-level walk *)
+Fixpoint eqb_list (a b : list N) : bool :=
+  match a, b with
+  | [], [] => true
+  | x :: a', y :: b' => (x =? y) && eqb_list a' b'
+  | _, _ => false
+  end.
+
+(* Top-level view of the decoded tree.  Every box other than mdat is decoded by the same Go function in
+   both modes from the same reader position; it is opaque here: its body is consumed (readBoxBody /
+   DecodeContainerChildren) and its Size() is taken to be the size in its header. *)
+Inductive topbox := TBox (name : list N) (startPos size : N) | TMdat (m : mdat) (size : N).
+
+(* DecodeBox (lazy = false) / DecodeBoxLazyMdat (lazy = true) at startPos *)
+Definition decode_box_top (lazy : bool) (file : list N) (zeof : bool) (startPos : N) (r : rsk)
+  : rf (topbox * rsk) :=
+  match decode_header file zeof r with
+  | RfOk (h, r1) =>
+      if eqb_list (hname h) name_mdat then
+        if lazy then
+          let m := decode_mdat_lazily h startPos in
+          match rs_seek_cur r1 (Z.of_N (hsize h) - Z.of_N (hlen h)) with
+          | Ok r2 => RfOk (TMdat m (fst (mdat_size m)), r2)
+          | _ => RfErr
+          end
+        else
+          match decode_mdat file h startPos r1 with
+          | Ok (m, r2) => RfOk (TMdat m (fst (mdat_size m)), r2)
+          | _ => RfErr
+          end
+      else
+        match read_box_body file r1 h with
+        | Ok (_, r2) => RfOk (TBox (hname h) startPos (hsize h), r2)
+        | _ => RfErr
+        end
+  | RfEOF => RfEOF
+  | RfErr => RfErr
+  | RfFuel => RfFuel
+  end.
+
+(* the LoopBoxes loop of DecodeFile: boxStartPos += box.Size(); io.EOF from the header read ends it.
+   (The "only one non-empty mdat" check and the segment/fragment bookkeeping of AddChild are the same
+   code in both modes and are not modelled.) *)
+Fixpoint decode_file_top (fuel : nat) (lazy : bool) (file : list N) (zeof : bool) (boxStartPos : N) (r : rsk)
+  : res (list topbox) :=
+  match fuel with
+  | O => OutOfFuel
+  | S f =>
+      match decode_box_top lazy file zeof boxStartPos r with
+      | RfEOF => Ok []
+      | RfErr => Err
+      | RfFuel => OutOfFuel
+      | RfOk (b, r1) =>
+          let size := match b with TBox _ _ s => s | TMdat _ s => s end in
+          do rest <- decode_file_top f lazy file zeof (u64 (boxStartPos + size)) r1; Ok (b :: rest)
+      end
+  end.
